@@ -23,6 +23,12 @@ CHECKS = {
  "C08": ("exploration", "property-based testing (proptest): recipe pairs constructed equal through different coset representatives / projective scalings, and independent pairs; metamorphic oracle (model equality <=> == <=> equal encodings, equal => equal hash stream, identity predicates agree)",
          "Generated-input search over pairs incl. (r-1)*Q vs -Q, P+Q-Q vs P, Q+(r-1)*Q vs identity for Element and AffinePoint; a recording hasher compares the whole byte stream fed to Hash.",
          "Trusts the model's coset equality; min has no Hash/Zero to check.", "5/C08"),
+ "C06": ("exploration", "property-based testing (proptest): every public constructor/sampler/conversion/batch operation with generated arguments (byte strings, replayed RNG streams, recipe vectors); validity-predicate oracle evaluated by the big-integer model (on curve, r*P in {(0,+-1)}) plus encode/decode round trip",
+         "Generated-input search over constructor arguments incl. adversarial RNG prefixes, y-coordinates of out-of-group points, batches containing the (0,-1) identity representative.",
+         "Trusts the model's curve equation and scalar multiplication; RNG streams end in a ChaCha20 tail so rejection loops terminate.", "5/C06"),
+ "C07": ("exploration", "property-based testing (proptest): structured field elements (0, +-small, powers of zeta, roots of unity of every order 2^k) vs. a line-by-line port of the unoptimised elligatorSpec; metamorphic (r0 -> -r0) and additive (two-input hash) relations",
+         "Generated-input search in both configurations; both branches of the specification (inner ratio square / non-square) are counted in the evidence.",
+         "Trusts the BigUint elligatorSpec port (cross-checked against refmodel/spec.py).", "5/C07"),
 }
 PENDING = {}
 
